@@ -526,6 +526,10 @@ impl Transaction {
         );
         let transaction_type: TransactionType =
             FromPrimitive::from_u8(bytes[92]).ok_or(Error::from(ErrorKind::InvalidData))?;
+        // the payload of a golden ticket transaction is a serialized golden ticket (97 bytes)
+        if transaction_type == TransactionType::GoldenTicket && message_len != 97 {
+            return Err(Error::from(ErrorKind::InvalidData));
+        }
         let start_of_inputs = TRANSACTION_SIZE;
         let start_of_outputs = start_of_inputs + inputs_len as usize * SLIP_SIZE;
         let start_of_message = start_of_outputs + outputs_len as usize * SLIP_SIZE;
